@@ -327,15 +327,15 @@ theorem C03_step_on_chip (hdr P : List UInt8) (c : SysCfg) (hc : c.cached = fals
   unfold Sys.step
   dsimp only
   rw [if_neg (by simp [hh])]
-  have hw0 : rxAbs (opWorldRx s.world s.world.cache) g := Or.inr (Or.inr ⟨hchip, rfl, rfl, hclean⟩)
+  have hw0 : rxAbs g.pending g.over (opWorldRx s.world s.world.cache) g := Or.inr (Or.inr ⟨hchip, rfl, rfl, hclean, rfl, rfl⟩)
   simp only [hh, Option.getD_some]
   unfold exec
   generalize hout : execG c.toCfg.cached c.toCfg.onCb (Api.prog c.cap c.fuel Api.irq h) _ = out
-  have hex : OutcomeP rxAbs (fun g' rh => RxPost hdr P g g' rh.2) out := by
+  have hex : OutcomeP (rxAbs g.pending g.over) (fun g' rh => RxPost hdr P g g' rh.2) out := by
     rw [← hout]
     have hcc : c.toCfg.cached = false := hc
     rw [hcc]
-    exact execG_gwp' rxE false c.toCfg.onCb rxAbs (rx_covers _)
+    exact execG_gwp' rxE false c.toCfg.onCb (rxAbs g.pending g.over) (rx_covers _ _ _)
       (Api.prog c.cap c.fuel .irq h) g _ (rx_api_irq c.cap c.fuel hfuel hdr P h g hv hmod) _ hw0
   cases out with
   | ub u w => trivial
@@ -391,25 +391,25 @@ theorem C03_step_on_chip_obs (hdr P : List UInt8) (c : SysCfg) (hc : c.cached = 
     (hchip : RxChip s.world.chip g) (hclean : g.faulted = false) :
     match s.step c (.api .irq [] []) with
     | (s', .ret _ cbs _) => ∃ h' g', s'.handle = some h' ∧ RxPost hdr P g g' h' ∧
-        (g'.ended = false → RxChip s'.world.chip g' ∧ g'.faulted = false) ∧
+        (g'.ended = false → RxChip s'.world.chip g' ∧ g'.faulted = false ∧ g'.pending = g.pending ∧ g'.over = g.over) ∧
         g'.cbs = g.cbs ++ cbs.map (·.ev)
     | (_, .ub _) => True
     | (_, _) => False := by
   unfold Sys.step
   dsimp only
   rw [if_neg (by simp [hh])]
-  have hw0 : rxAbs (opWorldRx s.world s.world.cache) g ∧ CbsTie rxK g.cbs (opWorldRx s.world s.world.cache) g :=
-    ⟨Or.inr (Or.inr ⟨hchip, rfl, rfl, hclean⟩), Or.inr (by show g.cbs = g.cbs ++ _; simp [opWorldRx])⟩
+  have hw0 : rxAbs g.pending g.over (opWorldRx s.world s.world.cache) g ∧ CbsTie rxK g.cbs (opWorldRx s.world s.world.cache) g :=
+    ⟨Or.inr (Or.inr ⟨hchip, rfl, rfl, hclean, rfl, rfl⟩), Or.inr (by show g.cbs = g.cbs ++ _; simp [opWorldRx])⟩
   simp only [hh, Option.getD_some]
   unfold exec
   rw [onCb_noReact' hnr]
   generalize hout : execG c.toCfg.cached logCb (Api.prog c.cap c.fuel Api.irq h) _ = out
-  have hex : OutcomeP (fun w g' => rxAbs w g' ∧ CbsTie rxK g.cbs w g') (fun g' rh => RxPost hdr P g g' rh.2) out := by
+  have hex : OutcomeP (fun w g' => rxAbs g.pending g.over w g' ∧ CbsTie rxK g.cbs w g') (fun g' rh => RxPost hdr P g g' rh.2) out := by
     rw [← hout]
     have hcc : c.toCfg.cached = false := hc
     rw [hcc]
     exact execG_gwp' rxE false logCb _
-      (covers_cbs rxE rxK false logCb rxAbs (rx_covers _) (fun e h w h' w' ho => by cases ho; rfl) g.cbs)
+      (covers_cbs rxE rxK false logCb (rxAbs g.pending g.over) (rx_covers _ _ _) (fun e h w h' w' ho => by cases ho; rfl) g.cbs)
       (Api.prog c.cap c.fuel .irq h) g _ (rx_api_irq c.cap c.fuel hfuel hdr P h g hv hmod) _ hw0
   cases out with
   | ub u w => trivial
@@ -424,7 +424,7 @@ theorem C03_step_on_chip_obs (hdr P : List UInt8) (c : SysCfg) (hc : c.cached = 
         rw [ht', List.map_reverse]
     refine ⟨h', g', rfl, hpost, fun hne => ?_, hcbs⟩
     have hw := rxAbs_live ⟨hpost.1, hne⟩ hab
-    refine ⟨?_, hw.clean⟩
+    refine ⟨?_, hw.clean, hw.pend, hw.ov⟩
     show RxChip (w.sched.foldl _ w.chip) g'
     rw [hw.nosched]
     exact hw.chip
@@ -527,7 +527,8 @@ theorem Receiving.irq {hdr P s g} (c : SysCfg) (hc : c.cached = false) (hnr : c.
     (hr : Receiving hdr P s g) :
     match s.step c (.api .irq [] []) with
     | (s', .ret _ cbs _) =>
-        (∃ g', Receiving hdr P s' g' ∧ cbs.map (·.ev) = [] ∧ g'.cbs = g.cbs ∧ g.over = false) ∨
+        (∃ g', Receiving hdr P s' g' ∧ cbs.map (·.ev) = [] ∧ g'.cbs = g.cbs ∧ g.over = false ∧
+          g'.pending = g.pending ∧ g'.over = g.over ∧ g.Same g') ∨
         (cbs.map (·.ev) = [.rx P P.length] ∧ (g.crcOn = true → g.crcGood = true) ∧
           ∃ h', s'.handle = some h' ∧ h'.expected = 0 ∧ h'.received = 0) ∨
         (cbs.map (·.ev) = [] ∧ g.crcOn = true ∧ g.crcGood = false ∧
@@ -547,9 +548,9 @@ theorem Receiving.irq {hdr P s g} (c : SysCfg) (hc : c.cached = false) (hnr : c.
     obtain ⟨hpois, hcase⟩ := hpost
     have cancel : ∀ l : List CbEvent, g'.cbs = g.cbs ++ l → g.cbs ++ cbs.map (·.ev) = g.cbs ++ l := fun l e => by rw [← hcbs, e]
     rcases hcase with ⟨hend, e, hinv, hov, hsame⟩ | ⟨hend, e, hcrc, he, hrc⟩ | ⟨hwhy, hend, e, he, hrc, _⟩
-    · obtain ⟨hchip', hcl'⟩ := hch hend
+    · obtain ⟨hchip', hcl', hpe', hov'⟩ := hch hend
       left
-      refine ⟨g', ⟨⟨h', hh', hinv⟩, hchip', hcl'⟩, ?_, e, ?_⟩
+      refine ⟨g', ⟨⟨h', hh', hinv⟩, hchip', hcl'⟩, ?_, e, ?_, hpe', hov', hsame⟩
       · exact List.append_cancel_left (cancel [] (by rw [e]; simp))
       · rcases hov with h1 | h1
         · exact h1
@@ -557,7 +558,7 @@ theorem Receiving.irq {hdr P s g} (c : SysCfg) (hc : c.cached = false) (hnr : c.
     · right; left
       exact ⟨List.append_cancel_left (cancel _ e), hcrc, h', hh', he, hrc⟩
     · right; right
-      have hcl' := (hch hend).2
+      have hcl' := (hch hend).2.1
       have hcrcbad : g.crcOn = true ∧ g.crcGood = false := by
         rcases hwhy with h1 | h1
         · exact h1
@@ -579,5 +580,120 @@ example : Receiving [2] [7, 9]
       · intro _; decide
       · intro _; decide
   · exact ⟨rfl, by decide, by decide, by decide, by decide, by decide, by decide, by decide, by decide, by decide, by decide, by decide⟩
+
+/-- admissible reception histories on the chip model, relative to the bytes of the frame that are
+    still on the air (`rem`) and to whether the demodulator has signalled the end of the packet
+    (`ov`): the next byte arrives while the FIFO has room (read off the chip), the end is
+    signalled once after the last byte with the frame's CRC outcome, the host runs the handler -/
+def RxHist (c : SysCfg) (crcGood : Bool) : Sys → List UInt8 → Bool → List Op → Prop
+  | _, _, _, [] => True
+  | s, rem, ov, op :: ops =>
+    match op with
+    | .env (.rxByte b) =>
+      (match rem with
+       | b' :: rest => b' = b ∧ s.world.chip.fifo.length ≤ 62 ∧ RxHist c crcGood (s.step c op).1 rest ov ops
+       | [] => False)
+    | .env (.rxEnd ok) => rem = [] ∧ ov = false ∧ ok = crcGood ∧ RxHist c crcGood (s.step c op).1 [] true ops
+    | .api .irq [] [] => RxHist c crcGood (s.step c op).1 rem ov ops
+    | _ => False
+
+/-- what the application sees of a reception history: nothing, until one invocation shows exactly
+    the receive callback with the payload and its length -/
+def RxSeen (P : List UInt8) : List Obs → Prop
+  | [] => True
+  | o :: rest => (∃ u, o = .ub u) ∨ (o.cbEvents = [] ∧ RxSeen P rest) ∨ o.cbEvents = [.rx P P.length]
+
+/-- **C03 on the chip model, whole histories.** From a reception in progress (uncached build, no
+    application reaction, CrcAutoClearOff as the driver configures it), for a frame whose CRC is
+    good or not checked, and for every admissible history of byte arrivals, the end-of-packet
+    signal and handler invocations — spurious and repeated ones included —: the application sees
+    nothing until one invocation shows exactly one receive callback with exactly the payload and
+    its length. -/
+theorem C03_history_on_chip (hdr P : List UInt8) (c : SysCfg) (hc : c.cached = false) (hnr : c.NoReact) (hfuel : 64 ≤ c.fuel)
+    (ops : List Op) (s : Sys) (g : RxG) (hr : Receiving hdr P s g)
+    (hcrc : g.crcOn = true → g.crcGood = true) (hauto : g.cfg1 &&& 0x08 ≠ 0)
+    (hadm : RxHist c g.crcGood s g.pending g.over ops) : RxSeen P (Sys.run c s ops).2 := by
+  induction ops generalizing s g with
+  | nil => trivial
+  | cons op rest ih =>
+    simp only [Sys.run]
+    unfold RxHist at hadm
+    cases op with
+    | env e =>
+      cases e with
+      | rxByte b =>
+        simp only at hadm
+        cases hp : g.pending with
+        | nil => rw [hp] at hadm; exact absurd hadm id
+        | cons b' tl =>
+          rw [hp] at hadm
+          obtain ⟨hb, hroom, hrest⟩ := hadm
+          subst hb
+          have hroom' : g.fifo.length ≤ 62 := by rw [← hr.chip.fifo]; exact hroom
+          obtain ⟨hr', ho⟩ := hr.byte c b' tl hp hroom'
+          obtain ⟨h, _, hv⟩ := hr.handle
+          have hadv : g.Adv (g.arrive 1 false) := ⟨1, false, ⟨by rw [hp]; simp, by omega⟩, rfl⟩
+          have hs := (hv.adv hadv).2.1
+          have hpend : (g.arrive 1 false).pending = tl := by unfold RxG.arrive; simp [hp]
+          have hover : (g.arrive 1 false).over = g.over := by unfold RxG.arrive; simp [hp]
+          right; left
+          refine ⟨by rw [ho]; rfl, ih _ _ hr' ?_ ?_ ?_⟩
+          · unfold RxG.crcOn; rw [hs.cfg1, hs.crcGood]; exact hcrc
+          · rw [hs.cfg1]; exact hauto
+          · rw [hpend, hover, hs.crcGood]; exact hrest
+      | rxEnd ok =>
+        simp only at hadm
+        obtain ⟨hp, hov, hok, hrest⟩ := hadm
+        subst hok
+        obtain ⟨hr', ho⟩ := hr.fin c hp hov hauto
+        obtain ⟨h, _, hv⟩ := hr.handle
+        have hadm0 : g.Adm 0 := ⟨Nat.zero_le _, by have := hr.chip.room; omega⟩
+        have hs := (hv.adv ⟨0, true, hadm0, rfl⟩).2.1
+        have hpend : (g.arrive 0 true).pending = [] := by unfold RxG.arrive; simp [hp]; split <;> rfl
+        have hover : (g.arrive 0 true).over = true := by unfold RxG.arrive; simp [hp, hov]
+        right; left
+        refine ⟨by rw [ho]; rfl, ih _ _ hr' ?_ ?_ ?_⟩
+        · unfold RxG.crcOn; rw [hs.cfg1, hs.crcGood]; exact hcrc
+        · rw [hs.cfg1]; exact hauto
+        · rw [hpend, hover, hs.crcGood]; exact hrest
+      | _ => exact absurd hadm id
+    | api a sched faults =>
+      cases a with
+      | irq =>
+        cases sched with
+        | cons _ _ => exact absurd hadm id
+        | nil =>
+          cases faults with
+          | cons _ _ => exact absurd hadm id
+          | nil =>
+            simp only at hadm
+            have := hr.irq c hc hnr hfuel
+            generalize hst : s.step c (.api .irq [] []) = st at this hadm
+            obtain ⟨s', o⟩ := st
+            cases o with
+            | ub u => left; exact ⟨u, rfl⟩
+            | skipped => exact absurd this id
+            | env => exact absurd this id
+            | ret r cbs bus =>
+              rcases this with ⟨g', hr', e, _, _, hpe, hov, hs⟩ | ⟨e, _⟩ | ⟨_, hon, hbad, _⟩
+              · right; left
+                refine ⟨e, ih s' g' hr' ?_ ?_ ?_⟩
+                · unfold RxG.crcOn; rw [hs.cfg1, hs.crcGood]; exact hcrc
+                · rw [hs.cfg1]; exact hauto
+                · rw [hpe, hov, hs.crcGood]; exact hadm
+              · right; right; exact e
+              · rw [hcrc hon] at hbad; cases hbad
+      | _ => exact absurd hadm id
+
+
+/-- non-vacuity: on the chip of the `Receiving` example, the three bytes of the frame `[2, 7, 9]`,
+    the end-of-packet signal and a handler invocation form an admissible history -/
+example : RxHist { cached := false } true
+    { world := { chip := { fsk := ((Mem.zeros 128).wr 0x30 0x98).wr 0x35 31 } },
+      handle := some { opmod := Gen.SX127x_MODE_RX_CONT, rxCb := true, packet := Mem.zeros 16,
+                       format := Gen.SX127X_VARIABLE, crcType := Gen.SX127X_CRC_CCITT } }
+    [2, 7, 9] false
+    [.env (.rxByte 2), .env (.rxByte 7), .env (.rxByte 9), .env (.rxEnd true), .api .irq [] []] :=
+  ⟨rfl, by decide, rfl, by decide, rfl, by decide, rfl, rfl, rfl, trivial⟩
 
 end Sx
